@@ -11,6 +11,8 @@ from gen import resolver as G
 
 OUT_COMPARED = ["S.read_assignments.tsv", "S.corrected_reads.bed", "S.transcript_counts.tsv", "S.gene_counts.tsv",
                 "S.transcript_model_reads.tsv", "S.transcript_models.gtf", "S.transcript_model_counts.tsv"]
+# the run without the alignments that lost must give the same read-level files, tables and annotations
+OUT_DIFFERENTIAL = OUT_COMPARED + ["S.extended_annotation.gtf"]
 
 
 def _mods():
@@ -123,13 +125,20 @@ def load_outputs(files):
             p = l.split("\t")
             if len(p) >= 2 and p[1] not in ("*", "."):
                 model_reads[p[0]].add(p[1])
-    return got, bed, model_reads, parse_counts(files["S.transcript_counts.tsv"]), parse_counts(files["S.gene_counts.tsv"])
+    model_span = {}
+    if "S.transcript_models.gtf" in files:
+        for f in P.parse_gtf(files["S.transcript_models.gtf"]):
+            if f["feature"] == "transcript":
+                model_span[f["attrs"]["transcript_id"]] = (f["chr"], f["start"], f["end"])
+    mcounts = parse_counts(files["S.transcript_model_counts.tsv"]) if "S.transcript_model_counts.tsv" in files else {}
+    return (got, bed, model_reads, parse_counts(files["S.transcript_counts.tsv"]), parse_counts(files["S.gene_counts.tsv"]),
+            model_span, mcounts)
 
 
 def check_mode(md, cls, files, mode, with_totals):
     """the clauses of the statement on the outputs of one run; returns (failures, {read: retained keys}, n reads)"""
     fails = []
-    got, bed, model_reads, tcounts, gcounts = load_outputs(files)
+    got, bed, model_reads, tcounts, gcounts, model_span, mcounts = load_outputs(files)
     retained_by_read = {}
     n_multi = 0
     for name, alns in md.reads:
@@ -181,12 +190,22 @@ def check_mode(md, cls, files, mode, with_totals):
         kept_genes = set(g for k_ in kept for g in key_gene.get(k_, ()))
         lost_genes = set(g for k_ in all_keys - kept for g in key_gene.get(k_, ())) - kept_genes
         bad = [t for t in model_reads.get(name, ()) if any(t.startswith(g + "_") for g in lost_genes)]
+        # ... and no transcript model (annotated or novel) lying in a locus where it has no retained alignment
+        lost_loci = [md.loci[alns[k][0]] for k in range(len(alns)) if md.loci[alns[k][0]][2] in lost_genes]
+        for t in model_reads.get(name, ()):
+            sp = model_span.get(t)
+            if sp and any(sp[0] == "chr%d" % (c + 1) and p_ < sp[2] and sp[1] <= p_ + MS.LOCUS_LEN for c, p_, _ in lost_loci):
+                bad.append(t)
         if bad:
-            fails.append(("pipeline:loser_visible", dict(detail, transcript_model_reads=sorted(bad))))
+            fails.append(("pipeline:loser_visible", dict(detail, transcript_model_reads=sorted(set(bad)))))
         if not with_totals:
             continue
         # what the read adds to the tables: every isoform of its loci has exactly one other (confirming) read,
         # every gene exactly two
+        # (the copies of a read share their loci and behave alike: the group's total divided by the number of copies)
+        base_name, ncop = md.group.get(name, (name, 1))
+        if ncop > 1 and name != base_name + ".0":
+            continue
         tt = gg = 0.0
         loci = sorted(set(a[0] for a in alns))
         for li in loci:
@@ -194,11 +213,23 @@ def check_mode(md, cls, files, mode, with_totals):
             for suf in ("_Ta", "_Tb"):
                 tt += max(0.0, tcounts.get(gid + suf, 0.0) - 1.0)
             gg += max(0.0, gcounts.get(gid, 0.0) - 2.0)
-        if tt > 1.005 or gg > 1.005:
-            w = min(len(kept), int(math.ceil(max(tt, gg) - 0.005)))
+        tt /= ncop
+        gg /= ncop
+        # transcript_model_counts.tsv (the counter fed by GraphBasedModelConstructor.forward_counts, one constructor per
+        # locus): what the transcript models lying in the read's loci got beyond the two confirming reads of each locus
+        # (a confirming read adds at most 1 to its locus, so this never over-estimates the multi-mapped read's share)
+        mt = 0.0
+        for li in loci:
+            c_, p_, _ = md.loci[li]
+            in_locus = [t for t, sp in model_span.items() if sp[0] == "chr%d" % (c_ + 1) and p_ < sp[1] <= p_ + MS.LOCUS_LEN]
+            mt += max(0.0, sum(mcounts.get(t, 0.0) for t in in_locus) - 2.0)
+        mt /= ncop
+        if tt > 1.005 or gg > 1.005 or mt > 1.005:
+            w = lambda x: min(len(kept), int(math.ceil(x - 0.005))) if x > 1.005 else 0
             fails.append(("read_total_gt_one",
-                          {"strategy": "pipeline default", "transcript_total": tt, "gene_total": gg, "retained": len(kept),
-                           "weighted_records_transcript": w if tt > 1.005 else 0, "weighted_records_gene": w if gg > 1.005 else 0,
+                          {"strategy": "pipeline default", "transcript_total": tt, "gene_total": gg, "model_total": mt,
+                           "retained": len(kept), "weighted_records_transcript": w(tt), "weighted_records_gene": w(gg),
+                           "weighted_records_model": w(mt),
                            "read": name, "level": "pipeline", "alignments": detail["alignments"]}))
     return fails, retained_by_read, n_multi
 
@@ -239,6 +270,11 @@ def check_dataset(md, workdir, tag, thorough=False):
         if nm == "default":
             retained_by_read, n_multi = rb, n
     info["multi_reads_checked"] = n_multi
+    # differential form of "the alignments that lose are suppressed everywhere": the same data set WITHOUT the records the
+    # default run did not report (suspended by the resolver, or filtered before it) gives the same outputs
+    f, dinfo = differential(md, cls, base, workdir, tag)
+    fails += f
+    info.update(dinfo)
     # other orders: chromosome processing order reversed (lengths), chromosome order in FASTA / BAM header reversed,
     # the alignments spread over two BAM files given in either order
     variants = []
@@ -262,6 +298,52 @@ def check_dataset(md, workdir, tag, thorough=False):
             if k2 != kept:
                 fails.append(("pipeline:order_dependent", {"read": name, "variant": vn, "retained": sorted(kept),
                                                            "retained_variant": sorted(k2)}))
+    return fails, info
+
+
+def _norm_lines(fn, text):
+    ls = strip(text).split("\n")
+    # the order of lines inside a chromosome follows the read clusters: read-level files and tables are compared as multisets
+    return sorted(ls) if fn.endswith(".tsv") or fn.endswith(".bed") else ls
+
+
+def differential(md, cls, full, workdir, tag):
+    """run the data set once more without the alignment records that `full` did not report and compare the outputs"""
+    got = parse_assignments(full["files"]["S.read_assignments.tsv"])
+    keep = {}
+    removed = 0
+    for name, alns in md.reads:
+        kept = set(got.get(name, {}).keys())
+        ks = set()
+        for k in range(len(alns)):
+            c = cls.get("%s~%d" % (name, k))
+            if c and (set(c.keys()) & kept):
+                ks.add(k)
+            else:
+                removed += 1
+        keep[name] = ks
+    info = {"differential_records_removed": removed}
+    if not removed:
+        return [], info
+    red = run(md.build(keep=keep), workdir, tag + "_red")
+    if red["rc"] != 0 or "S.read_assignments.tsv" not in red["files"]:
+        return [("pipeline:run_failed", "run without the losing records: rc=%s %s" % (red["rc"], red["log"][-600:]))], info
+    fails = []
+    models_full = models_red = 0
+    for fn in OUT_DIFFERENTIAL:
+        a = _norm_lines(fn, open(full["files"][fn]).read()) if fn in full["files"] else None
+        b = _norm_lines(fn, open(red["files"][fn]).read()) if fn in red["files"] else None
+        if fn == "S.transcript_model_reads.tsv":
+            multi = tuple(n + "\t" for n, _ in md.reads)
+            models_full = sum(1 for l in (a or []) if l.startswith(multi) and not l.endswith("\t*"))
+            models_red = sum(1 for l in (b or []) if l.startswith(multi) and not l.endswith("\t*"))
+        if a != b:
+            only_a = [l for l in (a or []) if l not in set(b or [])][:4]
+            only_b = [l for l in (b or []) if l not in set(a or [])][:4]
+            fails.append(("pipeline:loser_changes_outputs",
+                          {"file": fn, "records_removed": removed, "only_with_losers": [x[:200] for x in only_a],
+                           "only_without_losers": [x[:200] for x in only_b]}))
+    info["differential_model_support_lines"] = max(models_full, models_red)
     return fails, info
 
 
@@ -349,7 +431,7 @@ def datasets(ctx):
         seed = ctx.rng.randrange(10 ** 6)
         import random
         r = random.Random(seed)
-        res.append(MS.random_dataset(r, seed, n_reads=16 if quick else 24, n_chroms=3))
+        res.append(MS.random_dataset(r, seed, n_reads=21 if quick else 30, n_chroms=3))
     return res
 
 
@@ -369,13 +451,17 @@ def oracle(ctx, disagreements, broken):
         for i, md in enumerate(datasets(ctx)):
             fails, info = check_dataset(md, work, "o%d" % i, thorough=(ctx.tier != "quick"))
             total += info.get("multi_reads_checked", 0)
+            ctx.extra["pipeline_differential_records_removed"] = (ctx.extra.get("pipeline_differential_records_removed", 0)
+                                                                  + info.get("differential_records_removed", 0))
+            ctx.extra["pipeline_model_support_lines_of_multimapped_reads"] = (
+                ctx.extra.get("pipeline_model_support_lines_of_multimapped_reads", 0) + info.get("differential_model_support_lines", 0))
             seen = set()
             for kind, detail in fails:
                 sig = (kind, detail.get("retained") if isinstance(detail, dict) and kind == "read_total_gt_one" else str(detail)[:300])
                 if sig in seen:
                     continue
                 seen.add(sig)
-                ctx.fail(kind, {"dataset_seed": md.seed, "n_reads": len(md.reads), "level": "pipeline"}, detail)
+                ctx.fail(kind, {"dataset_seed": md.seed, "n_reads": md.n_groups, "level": "pipeline"}, detail)
     finally:
         shutil.rmtree(work, ignore_errors=True)
     ctx.extra["pipeline_multi_reads_checked"] = total
